@@ -19,7 +19,9 @@
 //   verdict = accept  <=>  the verifier sent kappa challenges and every one equals the guess bit;
 //   a rejecting verifier must have sent a challenge that differs from the guess;
 //   every challenge bit on the wire equals the coin byte the verifier consumed for it;
-//   per (statement, guess): all 2^kappa strings observed (else exhaustive=false) and exactly one of them accepted.
+//   per (statement, guess): if all randomness the verifier consumed consisted of the steered one-byte draws (coin log
+//   of the verifier thread; otherwise cap steering-lost, exhaustive=false), its verdict is a function of the
+//   enumerated string alone and exactly one of the 2^kappa strings must be accepted.
 #include "c04_common.hh"
 using namespace c04;
 
@@ -82,6 +84,7 @@ template<class StackT, class SecretT> static void explore(const std::string &pre
 			uint64_t rs = seed ^ fnv(cid + "/" + cs_);
 			mcenv::CoinSource csP(rs, 101), csV(rs, 202);
 			unsigned draws = 0;
+			csV.logging = true;
 			csV.steer = [&](unsigned char *buf, size_t len, int, uint64_t) -> bool {
 				if (len != 1) return false;
 				unsigned k = draws++;
@@ -92,41 +95,45 @@ template<class StackT, class SecretT> static void explore(const std::string &pre
 				[&](std::iostream &io) { return guess_prover<StackT, SecretT>(io, s, s2, cyclic, guess, ops); },
 				[&](std::iostream &io) { return ops.verify(s, s2, cyclic, io); }, rs, &csP, &csV);
 			R->counters["runs"]++;
+			// fully steered: every random request of the verifier thread was a one-byte request answered by the harness,
+			// i.e. the verifier's behaviour in this run is a function of the enumerated string alone
+			bool fully_steered = true;
+			for (size_t i = 0; i < csV.log.size(); i++) if (csV.log[i].len != 1) fully_steered = false;
+			if (!fully_steered) steering_lost = true;
 			std::vector<int> ch = challenge_bits(r.vlines);
 			bool level_ok = !r.vlines.empty() && r.vlines[0] == str(kappa);
 			size_t L = ch.size();
-			bool all_match = true, wire_is_coin = true;
-			for (size_t i = 0; i < L; i++)
+			bool all_match = (L == kappa), wire_is_coin = true;
+			for (size_t i = 0; i < L && i < kappa; i++)
 			{
 				if (ch[i] != guess[i]) all_match = false;
 				if (i < draws && ch[i] != (int)((c >> i) & 1)) wire_is_coin = false;
 			}
-			if (draws < L) steering_lost = true;   // the verifier did not take its challenges from 1-byte draws
 			std::string what = "guess=" + gs + " coins=" + cs_ + " wire=";
 			for (size_t i = 0; i < L; i++) what += (char)('0' + (ch[i] < 0 ? 9 : ch[i]));
-			what += " verdict=" + str(r.accept) + " vthrew=" + str(r.vthrew);
+			what += " verdict=" + str(r.accept) + " vthrew=" + str(r.vthrew) + " onebyte_draws=" + str(draws);
 			R->ok(L > 0);
 			if (!level_ok || L > kappa)
 				R->viol("guess/protocol-shape", "verifier did not send the security level line followed by at most kappa challenges: " + what, cid);
-			else if (r.accept && !(L == kappa && all_match))
-				R->viol("guess/accepted-wrong-guess", "cut-and-choose verifier accepted a prover that had not prepared for the challenge it sent: " + what, cid);
+			else if (r.accept && !all_match)
+				R->viol("guess/accepted-wrong-guess", "cut-and-choose verifier accepted a prover that had not prepared for the challenges it sent: " + what, cid);
 			else if (!r.accept && all_match)
-				R->viol("guess/rejected-right-guess", "verifier rejected although every challenge it sent equals the guess (accepted for exactly one string fails): " + what, cid);
-			if (draws >= L && !wire_is_coin)
+				R->viol("guess/rejected-right-guess", "verifier rejected although it sent kappa challenges that all equal the guess (accepted for exactly that string fails): " + what, cid);
+			if (fully_steered && !wire_is_coin)
 				R->viol("guess/challenge-not-from-coins", "a challenge bit on the wire differs from the coin byte (0x00/0xFF) the verifier drew for it: " + what, cid);
 			if (r.accept) accepted++;
-			if (!steering_lost && wire_is_coin) observed.insert(c);
-			if (c == g || c == (g ^ 1u)) R->sample(cid, what);
+			if (fully_steered) observed.insert(c);
+			if (c == g) R->sample(cid, what);
 		}
 		R->counters["coin_strings_observed"] += observed.size();
 		R->counters["guesses"]++;
 		if (observed.size() != (1u << kappa))
 		{
 			R->exhaustive = false;
-			R->caps.insert(steering_lost ? "steering-lost" : "not-all-strings-observed");
+			R->caps.insert("steering-lost");   // the verifier drew randomness other than one byte per challenge: its coin strings were not enumerated
 		}
 		else if (accepted != 1)
-			R->viol("guess/accept-count", "guess " + gs + " accepted for " + str(accepted) + " of " + str(1u << kappa) + " verifier coin strings (expected exactly 1)", cid);
+			R->viol("guess/accept-count", "guess " + gs + " accepted for " + str(accepted) + " of the " + str(1u << kappa) + " verifier coin strings (all of the verifier's randomness was enumerated; expected exactly 1)", cid);
 	}
 }
 
